@@ -374,7 +374,7 @@ func Random(r *rand.Rand, nm, nt, np int, coverAll bool) Input {
 // ---------------------------------------------------------------- sticky runs
 
 // HangTimeout is how long a sticky Plan call may take before it is reported as not terminating.
-var HangTimeout = 10 * time.Second
+var HangTimeout = 5 * time.Second
 
 type Oracle struct {
 	PrepopMembers  []string `json:"prepop_members"`
@@ -468,6 +468,9 @@ func RunSticky(in Input) StickyRun {
 	o.PlanUnvisited = tps(tr.PlanUnvisited)
 	o.SortUnassigned = tps(tr.SortUnassigned)
 	o.Picks = tps(tr.Picks)
+	if run.Hang && len(o.Picks) > 200 {
+		o.Picks = o.Picks[:200] // the abandoned call keeps picking; the model falls back to its canonical choice afterwards
+	}
 	// areSubscriptionsIdentical reports map values; find keys carrying those values, in order
 	topics := in.TopicMap()
 	type kv struct {
@@ -820,4 +823,27 @@ func Adversarial(r *rand.Rand, maxM, maxT, maxP int) Input {
 	}
 	in.Normalize()
 	return in
+}
+
+// EncodeUD rebuilds Member.Data from the decoded form Member.UD (V1 layout when a generation is present, else V0).
+func EncodeUD(in *Input) {
+	for i := range in.Members {
+		m := &in.Members[i]
+		if m.UD == nil || m.UD.Err {
+			continue
+		}
+		t := map[string][]int32{}
+		for _, p := range m.UD.Parts {
+			t[p.T] = append(t[p.T], p.P)
+		}
+		if len(m.UD.Parts) == 0 && m.UD.HasGen && m.UD.Gen == 0 {
+			m.Data = nil
+			continue
+		}
+		if m.UD.HasGen {
+			m.Data, _ = sarama.BalanceStrategySticky.AssignmentData(m.ID, t, int32(m.UD.Gen))
+		} else {
+			m.Data, _ = sarama.VerifStickyEncodeV0(t)
+		}
+	}
 }
